@@ -1,5 +1,5 @@
 import PytaskProofs.Lemmas.EngineInv
-import PytaskProofs.Lemmas.EngineExit
+import PytaskProofs.Lemmas.StateExit
 import PytaskProofs.Lemmas.EngineExample
 /-!
 # C03 — nothing is re-executed unless something it depends on changed
